@@ -152,13 +152,20 @@ func c13RegistryOrigin(p *Prog, r *Report) {
 				}
 			}
 		}
-		if okObj == nil || idObj == nil {
+		if idObj == nil {
 			r.Undecided("C13.a", k+"#unknown-id", p.pos(fi.Decl), "lookup flag / id parameter not identified")
 			continue
 		}
 		env := &Env{P: p, Pkg: fi.Pkg, Vars: map[types.Object]*Val{idObj: strVal("11111111-1111-1111-1111-111111111111")}}
+		// (the storage answers "not there" wherever the lookup sits: in the method or in a helper it calls)
+		env.Multi = func(env *Env, c *ast.CallExpr) ([]*Val, bool) {
+			if storageCall(env.Pkg.TypesInfo, c, "Load") {
+				return []*Val{{Fields: map[string]*Val{}, Complete: true}, boolVal(false)}, true
+			}
+			return nil, false
+		}
 		env.Hook = func(env *Env, e ast.Expr) (*Val, bool) {
-			if id, ok := e.(*ast.Ident); ok && env.Pkg == fi.Pkg && objOf(info, id) == okObj {
+			if id, ok := e.(*ast.Ident); ok && env.Pkg == fi.Pkg && okObj != nil && objOf(info, id) == okObj {
 				return boolVal(false), true
 			}
 			// a sentinel error is a value of its own (it may travel through a helper's result variable)
